@@ -826,7 +826,9 @@ func (vc *VC) modsOfBlock(b *ssa.BasicBlock, ms *modSet, depth int, seen map[*ss
 					}
 					addHeapLeaves(ms, bt, prefix, in.Val.Type(), false)
 					if _, isArr := bt.Underlying().(*types.Array); isArr {
-						addHeapLeaves(ms, bt.Underlying().(*types.Array).Elem(), "", in.Val.Type(), true)
+						// the array object's contents live in the element heap of its element type
+						et := bt.Underlying().(*types.Array).Elem()
+						addHeapLeaves(ms, et, "", et, true)
 					}
 				}
 				ms.cur = nil
@@ -966,6 +968,16 @@ func (vc *VC) modsFromModifiesExpr(callee *ssa.Function, m string, ms *modSet) b
 		if st, ok := t.Underlying().(*types.Slice); ok {
 			addHeapLeaves(ms, st.Elem(), "", st.Elem(), true)
 			return true
+		}
+		if mt, ok := t.Underlying().(*types.Map); ok {
+			vc.addMapMods(ms, mt)
+			return true
+		}
+		if pt, ok := t.Underlying().(*types.Pointer); ok {
+			if at, ok := pt.Elem().Underlying().(*types.Array); ok {
+				addHeapLeaves(ms, at.Elem(), "", at.Elem(), true)
+				return true
+			}
 		}
 		return false
 	}
@@ -1512,6 +1524,23 @@ func (vc *VC) execInstr(fr *Frame, ins ssa.Instruction, st *State) {
 				}
 				vc.applyContract(fr, st, callee, con, args, pos, vc.srcText(fn, ins))
 				return
+			}
+		}
+		// `go func(){...}()` of a closure of the function under a contract flagged `go_inline`: the closure
+		// body is executed at the go statement (one possible schedule), so that its ghost events and
+		// anchors are seen; its effects are those of the calls it makes
+		if mc, ok := ins.Call.Value.(*ssa.MakeClosure); ok && vc.topCon != nil && vc.topCon.Flags["go_inline"] && fr.depth < maxInlineDepth {
+			if cf, ok := mc.Fn.(*ssa.Function); ok && vc.topFn != nil && isNestedIn(cf, vc.topFn) && cf.Blocks != nil && len(findLoops(cf)) == 0 {
+				fv := vc.value(fr, mc)
+				var args []Val
+				for _, a := range ins.Call.Args {
+					args = append(args, vc.value(fr, a))
+				}
+				if fv.Clo != nil {
+					_, out := vc.execFunc(cf, args, fv.Clo.Bindings, st, fr.depth+1, fr.con, false)
+					*st = *out
+					return
+				}
 			}
 		}
 		vc.note("go statement at %s:%d not executed; spawned body must be verified separately", shortFile(pos.Filename), pos.Line)
